@@ -112,6 +112,37 @@ def run_with_caps(cmd, cwd, log_path, timeout_s, mem_gb):
     return rc, timed_out, time.time() - t0
 
 
+import fcntl
+import contextlib
+
+SLOTS = int(os.environ.get("VERIF_SLOTS", "7"))
+
+
+@contextlib.contextmanager
+def solver_slot():
+    """machine-wide cap on concurrently running solver processes (each CBMC instance needs
+    3-8 GB during symbolic execution; several ./check invocations may run side by side)"""
+    d = os.path.join(WORK, "slots")
+    os.makedirs(d, exist_ok=True)
+    fh = None
+    while fh is None:
+        for i in range(SLOTS):
+            f = open(os.path.join(d, f"slot_{i}"), "w")
+            try:
+                fcntl.flock(f, fcntl.LOCK_EX | fcntl.LOCK_NB)
+                fh = f
+                break
+            except OSError:
+                f.close()
+        if fh is None:
+            time.sleep(3)
+    try:
+        yield
+    finally:
+        fcntl.flock(fh, fcntl.LOCK_UN)
+        fh.close()
+
+
 def shquote(s):
     return "'" + s.replace("'", "'\\''") + "'"
 
@@ -136,7 +167,7 @@ def parse_kani_log(text):
     m = re.search(r"Verification Time: ([\d.]+)s", text)
     if m:
         res["solver_s"] = float(m.group(1))
-    if "Status: ERROR" in text or "ran out of memory" in text or "std::bad_alloc" in text or "Out of memory" in text or "memory allocation of" in text:
+    if "Status: ERROR" in text or "ran out of memory" in text or "run out of memory" in text or "std::bad_alloc" in text or "Out of memory" in text or "memory allocation of" in text:
         res["oom"] = True
     funcs = set()
     for m in CHECK_RE.finditer(text):
@@ -175,13 +206,14 @@ def resolve_recursion(h, kf_features, cdir):
     inlines mutually recursive functions (2*unwind)^depth times; so recursion is bounded
     separately (CBMC's recursion unwinding assertion stays on: a too-small depth FAILS).
     Mangled names are read back from the goto binary of this very build."""
-    rec = h.get("recursion")
-    if not rec:
+    rec = dict(h.get("recursion") or {})
+    loops = h.get("loops") or {}
+    if not rec and not loops:
         return True
     log = os.path.join(LOGS, h["name"] + ".codegen.log")
     cmd = kani_cmd(dict(h, _resolved_recursion=[], unwindset=[], cbmc_args=[]), kf_features) + ["--only-codegen"]
     rc, timed_out, _ = run_with_caps(cmd, cdir, log, 1200, 0)
-    base = os.path.join(WORK, "k-" + h["crate"] + REPO_TAG)
+    base = target_dir(h)
     cands = []
     for root, _, files in os.walk(base):
         for f in files:
@@ -199,15 +231,28 @@ def resolve_recursion(h, kf_features, cdir):
         for prefix, depth in rec.items():
             if m.group("dem").startswith(prefix):
                 resolved.append(f"{m.group('mangled')}:{depth}")
+        # per-function loop bounds (loops are numbered .0, .1, ... inside a function; ids that
+        # do not exist are ignored by CBMC); unwinding assertions stay on
+        for prefix, bound in loops.items():
+            if m.group("dem").startswith(prefix):
+                for i in range(4):
+                    resolved.append(f"{m.group('mangled')}.{i}:{bound}")
     h["_resolved_recursion"] = sorted(set(resolved))
     if len(resolved) > 300:
         return False  # a prefix that matches this many functions is a registry mistake
     return bool(resolved)
 
 
+def target_dir(h):
+    """one target dir per (crate, arena size): feature sets that change the mock's MAXN would
+    otherwise rebuild the whole dependency graph on every alternation"""
+    size = "".join("-" + f for f in h.get("features", []) if f in ("n4", "n6", "n12"))
+    return os.path.join(WORK, "k-" + h["crate"] + size + REPO_TAG)
+
+
 def kani_cmd(h, kf_features, playback=None):
     feats = list(h.get("features", [])) + kf_features
-    cmd = ["cargo", "kani", "--target-dir", os.path.join(WORK, "k-" + h["crate"] + REPO_TAG),
+    cmd = ["cargo", "kani", "--target-dir", target_dir(h),
            "--harness", h.get("fq") or f"{h['module']}::proofs::{h['name']}", "--exact"]
     if feats:
         cmd += ["--features", ",".join(feats)]
@@ -245,7 +290,8 @@ def run_harness(h, tier, kf_features):
     if not resolve_recursion(h, kf_features, cdir):
         return {"name": h["name"], "engine": "K", "crate": h["crate"], "wall_s": 0, "status": "inconclusive",
                 "reason": "could not resolve recursion symbols in the goto binary", "log": log}
-    rc, timed_out, wall = run_with_caps(kani_cmd(h, kf_features), cdir, log, timeout_s, h.get("mem_gb", 14))
+    with solver_slot():
+        rc, timed_out, wall = run_with_caps(kani_cmd(h, kf_features), cdir, log, timeout_s, h.get("mem_gb", 14))
     text = open(log).read()
     r = parse_kani_log(text)
     out = {"name": h["name"], "engine": "K", "crate": h["crate"], "wall_s": round(wall, 1),
@@ -323,8 +369,19 @@ def run_replay_file(h, rpath, kf_features):
     # the test must live in the module that defines the harness fn: by convention
     # `mod proofs` is the LAST item of every harness file
     test_only = src[src.index("#[test]"):]
-    idx = body.rindex("}")
-    body = body[:idx] + "\n" + test_only + "\n}\n"
+    # insert right after the harness function (same module => the harness fn is in scope)
+    m = re.search(r"\n(\s*)fn " + re.escape(h["name"]) + r"\s*\(\s*\)\s*\{", body)
+    if m:
+        i = m.end()
+        depth = 1
+        while depth and i < len(body):
+            depth += {"{": 1, "}": -1}.get(body[i], 0)
+            i += 1
+        body = body[:i] + "\n" + test_only + "\n" + body[i:]
+    else:
+        # macro-generated harness: by convention `mod proofs` is the last item of the file
+        idx = body.rindex("}")
+        body = body[:idx] + "\n" + test_only + "\n}\n"
     open(mod_file, "w").write(body)
     feats = list(h.get("features", [])) + kf_features
     cmd = ["cargo", "kani", "playback", "-Z", "concrete-playback"]
@@ -394,18 +451,21 @@ def main():
     crates = sorted({h["crate"] for h in selected if h.get("kind") != "script"})
     for c in crates:
         prepare_crate(c)
-    # run the first harness of each crate alone to warm the dependency build
-    order = []
+    # warm the dependency build once per target directory (codegen only, serial), then run
+    # every harness through the pool (the machine-wide slot semaphore bounds concurrency)
     seen = set()
     for h in selected:
-        if h.get("kind") != "script" and h["crate"] not in seen:
-            seen.add(h["crate"])
-            order.append(h)
-    rest = [h for h in selected if h not in order]
-    with cf.ThreadPoolExecutor(max_workers=max(1, len(order))) as ex:
-        results += list(ex.map(lambda h: run_harness(h, args.tier, kf_features_all[h["name"]]), order))
+        if h.get("kind") == "script":
+            continue
+        td = target_dir(h)
+        if td in seen:
+            continue
+        seen.add(td)
+        cdir = prepare_crate(h["crate"])
+        warm = kani_cmd(dict(h, _resolved_recursion=[], unwindset=[], cbmc_args=[]), kf_features_all[h["name"]]) + ["--only-codegen"]
+        run_with_caps(warm, cdir, os.path.join(LOGS, "warmup-" + os.path.basename(td) + ".log"), 1800, 0)
     with cf.ThreadPoolExecutor(max_workers=args.jobs) as ex:
-        results += list(ex.map(lambda h: run_harness(h, args.tier, kf_features_all[h["name"]]), rest))
+        results += list(ex.map(lambda h: run_harness(h, args.tier, kf_features_all[h["name"]]), selected))
     by_name = {h["name"]: h for h in selected}
 
     violations = []
